@@ -561,6 +561,8 @@ def run(case, ctx):
                     if (b - start + 1) % 2:
                         b -= 1
                     fill = (start, b)
+                if fill and not model.g_lo <= fill[0] + (fill[1] - fill[0] + 1) // 2 <= model.g_hi:
+                    fill = None     # OMS.assign_spectrum only takes a centre inside the guard bands (wide guard band, narrow fill)
                 if fill and fill[1] - fill[0] + 1 >= 16:
                     m_fill = (fill[1] - fill[0] + 1) // 2
                     for i in ids0:
